@@ -31,7 +31,7 @@ ASSUMPTIONS = [
 ]
 PLAN = {
     "quick": {"shards": 8, "shard_timeout": 500, "case_timeout": 90, "inproc": 400, "strace": 8, "failpoints": 48, "sigkill": 10, "max_case_timeouts": 2},
-    "thorough": {"shards": 16, "shard_timeout": 3600, "case_timeout": 120, "inproc": 40000, "strace": 120, "failpoints": 2400, "sigkill": 300, "max_case_timeouts": 8},
+    "thorough": {"shards": 16, "shard_timeout": 3600, "case_timeout": 120, "inproc": 100000, "strace": 200, "failpoints": 5000, "sigkill": 500, "max_case_timeouts": 8},
 }
 THRESHOLDS = {
     "quick": {"disk_reads_after_register": 3000, "rows_compared": 3000, "multi_objective_rows": 800, "extra_field_cells": 1500, "simplegp_runs": 10, "strace_runs": 6, "strace_writes": 100, "crash_files_checked": 40, "set:kill_points": 15, "only_best_runs": 60, "set:special_cells_seen": 12},
